@@ -759,6 +759,42 @@ func (e *Exec) sxCall(env *SpecEnv, n *ast.CallExpr) SVal {
 			return SVal{T: t, Typ: boolT}
 		}
 		return SVal{T: t, Typ: intT}
+	case "ite":
+		c := e.mat(env, e.sx(env, n.Args[0]))
+		a, b := e.sx(env, n.Args[1]), e.sx(env, n.Args[2])
+		t := a.Typ
+		if a.IsNil {
+			t = b.Typ
+		}
+		at, bt := e.mat(env, a), e.mat(env, b)
+		if a.IsNil {
+			at = e.sc.zeroOf(t)
+		}
+		if b.IsNil {
+			bt = e.sc.zeroOf(t)
+		}
+		if bb, ok := t.(*types.Basic); ok && bb.Info()&types.IsUntyped != 0 {
+			t = types.Default(t)
+		}
+		return SVal{T: ite(c, at, bt), Typ: t}
+	case "buflen":
+		e.bufferMaps()
+		b := e.mat(env, e.sx(env, n.Args[0]))
+		return SVal{T: fmt.Sprintf("(- %s %s)", sel(e.hget(env.heap(), "GB_bufwr"), b), sel(e.hget(env.heap(), "GB_bufrd"), b)), Typ: intT}
+	case "bufbyte":
+		e.bufferMaps()
+		b := e.mat(env, e.sx(env, n.Args[0]))
+		i := e.mat(env, e.sx(env, n.Args[1]))
+		return SVal{T: sel(sel(e.hget(env.heap(), "GB_bufdata"), b), fmt.Sprintf("(+ %s %s)", sel(e.hget(env.heap(), "GB_bufrd"), b), i)), Typ: types.Typ[types.Byte]}
+	case "arrayOf":
+		v := e.sx(env, n.Args[0])
+		if _, ok := types.Unalias(v.Typ).Underlying().(*types.Slice); ok {
+			return SVal{T: "(s_arr " + v.T + ")", Typ: intT}
+		}
+		if v.Ref != "" {
+			return SVal{T: v.Ref, Typ: intT}
+		}
+		return SVal{T: v.T, Typ: intT}
 	case "lower":
 		e.sc.declFun("str_lower", []string{"Str"}, "Str")
 		return SVal{T: app("str_lower", e.mat(env, e.sx(env, n.Args[0]))), Typ: types.Typ[types.String]}
